@@ -39,4 +39,13 @@ CHECKS['C05'] = dict(
     note='bufio.Reader is modelled (fill/Peek/Discard/Read/ReadByte as used by pkg/frame); transports that return data together with an error, or empty reads, are outside the model. Trusted: Coq kernel, extraction, driver, harness.',
     technique='Coq proof (simulation chunked->flat stream, induction on fuel/stream length) + bounded-exhaustive extracted-model differential')
 
+CHECKS['C03'] = dict(
+    text='Kernel-checked: (i) on the table of all 408 shipped message structs regenerated from /repo on every run, the library\'s field table, payload sizes and CRC_EXTRA equal those a separately written MAVLink-rule specification (filter-based stable order, bit-serial CRC, unbounded arithmetic) derives from the definition each struct denotes, and each fits 255 bytes (vm_compute over the complete finite table); (ii) for ANY struct with extensions declared after base fields, the executable sort equals the MAVLink order, and ANY permutation sorted for the library\'s comparator (sort.Slice as an oracle) is that order (uniqueness of sorted permutations). The Initialize/Read/Write models are tied to pkg/message by probe encodings of every shipped type and 18 user-defined shapes.',
+    note='The generic (non-table) equality of sizes and CRC_EXTRA with the spec for arbitrary user structs is exercised by the differential run on user-defined shapes, not yet proved generically. Trusted: Coq kernel, vm_compute, extraction, driver, harness, the reflection-based table translator.',
+    technique='Coq proof (vm_compute over regenerated complete table + sorted-permutation uniqueness) + extracted-model differential')
+CHECKS['C17'] = dict(
+    text='Kernel-checked on tables regenerated from /repo on every run: all 19 shipped dialects initialise in the model of dialect.ReadWriter.Initialize; every message follows the layout rules and fits 255 bytes; messages with the same id and name are the same reflect.Type in every dialect; every enum constant has one value across all packages; 57 CRC_EXTRA values equal those published with the reference C library. Generic theorems: initialisation succeeds only with unique ids and well-formed structs (so duplicates / malformed structs are rejected at Initialize) and lookup is correct for EVERY id. Tied to pkg/dialect by differential lookups and user dialects with injected faults.',
+    note='Golden CRC_EXTRA list is a fixed table in coq/Proofs/TableDialects.v. Trusted: Coq kernel, vm_compute, table translator (reflection + go/ast), extraction, driver, harness.',
+    technique='Coq proof (vm_compute over regenerated tables + generic association-map lemmas) + extracted-model differential')
+
 NOT_APPLICABLE = [{'property_id': p, 'reason': PENDING} for p in ALL if p not in CHECKS]
